@@ -62,6 +62,30 @@ CHECKS.update({
                      'are known findings (role-based regions); anything outside them is a violation. Native replay reads the counter through the hook.',
                 design='5 C15', note=POLICY_NOTE),
 })
+SOCK_NOTE = NOTE_COMMON + (' Socket level: the real Client::handle / read_frame / skip_bytes coroutines over a socket model (a read returns a non-empty '
+             'prefix of what was sent, at most the spare capacity; EOF, reset or silence at the end; timeout fires only on silence); streams are '
+             'concretely laid out requests with symbolic payload, cut offset and read sizes; reads per connection bounded. Witnesses are replayed over '
+             'real loopback TCP against an in-process MemcacheTcpServer.')
+CHECKS.update({
+    'C12': dict(text='Bounded model checking of the real connection loop on pipelines of m requests from a menu of loud/quiet/unimplemented opcodes '
+                     'with quit/quitq anywhere and symbolic segmentation: handle_request called exactly for the requests before the quit, once each, '
+                     'in order; exactly one in-order response per loud request, at most one per quiet one; quit answered then shutdown; quitq silent '
+                     'shutdown; the task always returns.', design='5 C12', note=SOCK_NOTE + ' Fresh server; quick m=2 / menu 8, thorough m=3 / menu 12.'),
+    'C13': dict(text='Decoder: too large <=> body_length > limit for every valid header, header-only consumption; handler: 0x03 echo, nothing '
+                     'changed; socket: read_frame + skip_bytes on [oversized frame][followers] with every read size symbolic return ItemTooLarge and '
+                     'leave the next unread position at exactly 24 + body_length, without panic, within the read bound.',
+                design='5 C13', note=SOCK_NOTE + ' <= 3 (quick) / 4 (thorough) reads; bodies needing more 64 KiB skip reads are outside the bound.'),
+    'C17': dict(text='The spawned connection task (async block of MemcacheTcpServer::run) executed for every kind of ending (close, quit, quitq, '
+                     'mid-request disconnect, reset, protocol error, oversized item, idle timeout, write error) at symbolic cut offsets and '
+                     'segmentations: it terminates and returns exactly one permit (Drop for Client), also on unwinding; native loopback runs with '
+                     'connection limit 1 confirm a later connection is served after each ending.',
+                design='5 C17', note=SOCK_NOTE + ' tokio Semaphore trusted to be a counter; sequences of lifecycles by induction on the counter; '
+                                                 'the accept-side acquire+forget is read from one iteration of the accept loop where the engine reaches it.'),
+    'C18': dict(text='The real connection loop on m complete requests followed by a fault (close / reset / silence after a symbolic number of bytes of the '
+                     'next request, or a corrupted magic byte) with symbolic segmentation: exactly the complete requests are executed, once each and '
+                     'in order (a prefix after a reset), never the incomplete one, responses in order, the task returns; natively a second connection '
+                     'is still served.', design='5 C18', note=SOCK_NOTE + ' Task isolation and the accept loop continuing are tokio\'s (trusted).'),
+})
 NA = {
 }
 ALL = ['C%02d' % i for i in range(1, 21)]
